@@ -33,11 +33,12 @@ def copyUp (c : Cow) (name : Str) : Cow × Option FsErr :=
   (setL c r.1, r.2)
 
 /-- `copyFileToLayer(name, flag, perm)`: the base is opened with the *caller's* flags (which may
-    create or truncate it), copied from the handle's position on, and the handle is closed
-    (a writable handle stamps the base's mtime). -/
+    create or truncate it) except O_APPEND (as repaired: the copy starts at the beginning), copied
+    from the handle's position on, and the handle is closed (a writable handle stamps the base's
+    mtime). -/
 def copyUpFlags (c : Cow) (name : Str) (flag perm : Nat) : Cow × Option FsErr :=
   let k := keyOfStr name
-  let rb := c.s.b.openFile k flag perm
+  let rb := c.s.b.openFile k (flag - (flag &&& O_APPEND)) perm
   match rb.2 with
   | .handle h _ =>
     let b1 := rb.1
